@@ -631,7 +631,12 @@ impl Ctx {
         cov.insert("distinct_nontrivial".into(), json!(self.distinct_count()));
         cov.insert("distinct_nontrivial_exact_part".into(), json!(self.distinct.len()));
         cov.insert("distinct_nontrivial_sweep_part_lower_bound".into(), json!(self.sketch.as_ref().map(|s| s.count()).unwrap_or(0)));
-        cov.insert("rule".into(), json!(self.rule));
+        let rule = if self.sketch.is_some() {
+            format!("{} [points of dense sweeps are not stored one by one: their distinct non-trivial count is a lower bound from a bitmap sketch, reported separately as distinct_nontrivial_sweep_part_lower_bound]", self.rule)
+        } else {
+            self.rule.clone()
+        };
+        cov.insert("rule".into(), json!(rule));
         cov.insert("samples".into(), json!(self.samples));
         cov.insert("exhaustive".into(), json!(false));
         cov.insert("exhaustive_subspaces".into(), json!(self.exhaustive));
